@@ -47,7 +47,7 @@ def _run_task(task):
         mod = _load_property(pid)
         from vcgen import harness
 
-        contract = {c.name: c for c in mod.contracts()}[cname]
+        contract = {c.name: c for c in harness.all_contracts(mod)}[cname]
         inst = {i.name: i for i in contract.instances(tier)}[iname]
         r = harness.verify_instance(contract, inst, seed=seed, tier=tier)
         out = r.__dict__.copy()
@@ -120,7 +120,9 @@ def main(argv=None):
         return 3
 
     tasks = []
-    for c in mod.contracts():
+    from vcgen import harness as _h
+
+    for c in _h.all_contracts(mod):
         for inst in c.instances(tier):
             if args.only and args.only not in c.name + "/" + inst.name:
                 continue
